@@ -120,7 +120,7 @@ prop("C01",
      "absence of deadlock as a behaviour over all schedules and programs; progress of the retry loop (livelock).")
 
 prop("C02",
-     [ts.rule_T1, ts.rule_T2, pos.rule_P1, st2.rule_D1, st.rule_M1, st.rule_E1, st.rule_O2, ts.rule_M4, A("rule_Q3"), st.rule_M2, st.rule_DELEG, st.rule_E2, A("rule_E5")],
+     [ts.rule_T1, ts.rule_T2, pos.rule_P1, st2.rule_D1, st.rule_M1, st.rule_E1, st.rule_O2, ts.rule_M4, A("rule_Q3"), st.rule_M2, st.rule_DELEG, st.rule_E2, A("rule_E5"), ts2.rule_X3],
      "T1 every guard()/data_mut()/hold construction/protected-cell access is preceded on its path by a successful acquisition of "
      "the same receiver in the matching mode (path-sensitive typestate over every safe or acquiring function, eager arguments "
      "included); T2 user closures run only while held; P1 position k of every container guard is member k; D1 guard Deref targets "
@@ -231,7 +231,7 @@ prop("C12",
      "the fault-injection runs themselves; behaviour of third-party raw locks after a panic.")
 
 prop("C13",
-     [st.rule_X1, A("rule_X2"), ts2.rule_R4, cg.rule_E3, st.rule_M1, st.rule_M2, st.rule_E2, A("rule_E5")],
+     [st.rule_X1, A("rule_X2"), ts2.rule_X3, ts2.rule_R4, cg.rule_E3, st.rule_M1, st.rule_M2, st.rule_E2, A("rule_E5")],
      "X1 raw_try_* of Mutex/RwLock returns the unmodified lock_api try result on the not-killed path; X2 collection try is a "
      "conjunction in list order with rollback, in the requested mode only; R4/E5 a failed attempt holds nothing; E3 never waits.",
      "the raw lock's own exactness (try succeeds iff free) and the enumeration over held patterns.")
